@@ -15,7 +15,14 @@ func seededHistories(seed int64, n int) []history {
 	for i := 0; i < n; i++ {
 		res = append(res, seededHistory(rng, i, fmt.Sprintf("s%d", i+1)))
 	}
-	return res
+	// one directed history (the explorer counterexample ReceiverImpl_cex_abortdelete replayed in every run): two uploads
+	// of V1 break inside their second fragment; each has already made room by deleting an older segment of V1
+	d := history{ID: "d1", Src: "seed", Tracks: []string{"V1", "A1"}, First: []string{"V1", "A1"}, Tsbd: 4,
+		Order: []upl{{T: "V1", N: 1}, {T: "V1", N: 2}, {T: "V1", N: 3}, {T: "V1", N: 4, A: 2, F: 2, K: 2 * (1 + int(seed%5))},
+			{T: "V1", N: 5, A: 2, F: 3, K: 1 + 2*int(seed%7)}, {T: "A1", N: 1}, {T: "A1", N: 2}, {T: "A1", N: 3}, {T: "V1", N: 4, F: 2}}}
+	normalize(&d)
+	d.Class = classify(&d, 3) + "+directed"
+	return append(res, d)
 }
 
 func pick[T any](rng *rand.Rand, xs ...T) T { return xs[rng.Intn(len(xs))] }
@@ -120,6 +127,14 @@ func seededHistory(rng *rand.Rand, i int, id string) history {
 	if kind == 5 {
 		ahead = window + 1 + rng.Intn(3)
 	}
+	// aborted uploads: in about half of the histories a body sometimes breaks inside a box (refused by the receiver);
+	// the number is then usually sent again in full (at once or after other uploads), sometimes never
+	abortP := 0.0
+	if rng.Intn(2) == 0 {
+		abortP = 0.08 + 0.12*rng.Float64()
+	}
+	aborts := map[string]int{}
+	sent := map[string]bool{}
 	step := 0
 	for {
 		if late != "" && step == lateAt {
@@ -153,13 +168,26 @@ func seededHistory(rng *rand.Rand, i int, id string) history {
 			}
 			x -= weights[c]
 		}
-		h.Order = append(h.Order, upl{T: t, N: seqs[t][pos[t]]})
+		nr := seqs[t][pos[t]]
+		key := fmt.Sprintf("%s/%d", t, nr)
+		if abortP > 0 && !sent[key] && aborts[key] < 2 && rng.Float64() < abortP {
+			aborts[key]++
+			h.Order = append(h.Order, upl{T: t, N: nr, A: 1 + rng.Intn(2), K: 1 + rng.Intn(1000)})
+			step++
+			if rng.Intn(6) == 0 {
+				pos[t]++ // never repeated
+			}
+			continue // otherwise the number stays due: the next upload of this track repeats it in full
+		}
+		sent[key] = true
+		h.Order = append(h.Order, upl{T: t, N: nr})
 		pos[t]++
 		step++
 	}
 	if late != "" && lateAt >= 0 {
 		h.Order = append(h.Order, upl{T: late, N: 0})
 	}
+	normalize(&h)
 	h.Class = classify(&h, window)
 	if kind == 5 {
 		h.Class += "+ahead"
